@@ -128,5 +128,22 @@ for d in ../seeded/*/; do
   fi
   rm -rf "$W"
 done
+# ---- phase 3: behaviour-preserving refactorings written by independent sub-agents (benign_ext/), except the two
+# that make rules lose their anchors (B1-b1: write/sync/advance moved into a helper; B6-b4: two-bucket validation helper)
+for f in ../benign_ext/*.diff; do
+  name=$(basename "$f" .diff)
+  case "$name" in B1-b1|B6-b4) continue;; esac
+  W=$(mktemp -d /tmp/nutsmut.XXXXXX); cp -r "$BASE"/. "$W"/
+  if (cd "$W" && patch -p1 -s < "$OLDPWD/$f" >/dev/null 2>&1) && (cd "$W" && go build ./... 2>/dev/null); then
+    cp "$f" "benign/ext-$name.diff"
+    echo "," >> corpus.json
+    desc=$(head -c 140 "../benign_ext/$name.txt" | tr '\n"\\' '   ')
+    printf '{"kind":"benign","name":"ext-%s","rules":"ALL","file":"(several)","desc":"%s"}' "$name" "$desc" >> corpus.json
+    echo "ok benign/ext-$name"
+  else
+    echo "SKIP ext-$name"
+  fi
+  rm -rf "$W"
+done
 echo "]" >> corpus.json
 rm -rf "$BASE"
